@@ -410,7 +410,11 @@ def job_water(job):
 from .c19 import job_facade_gas, replay_facade  # noqa: E402,F401  (replay_facade is looked up in this module by --replay)
 
 
+from .c19 import job_facade_oil_reassigned, replay_facade  # noqa: E402,F401  (the oil FVF a caller gets from a re-used Fluid object)
+
+
 def jobs(tier):
     return [("gas-density", job_gas_density), ("gas-compressibility", job_gas_compressibility),
             ("gas-viscosity", job_viscosity), ("oil-density", job_oil), ("water-density", job_water),
-            ("gas-through-the-facade", job_facade_gas), ("oil-density-array", job_oil_array), ("oil-density-array-int64", lambda j: job_oil_array(j, "i8"))]
+            ("gas-through-the-facade", job_facade_gas), ("oil-density-array", job_oil_array), ("oil-density-array-int64", lambda j: job_oil_array(j, "i8")),
+            ("oil-through-the-facade-reassigned", job_facade_oil_reassigned)]
